@@ -65,6 +65,32 @@ def run(chk):
     chk.assume("sort keys named in 'sorted-vec' discharges are total on the collected elements (printed per site)")
 
 
+def random_hash_iterations(facts, crates):
+    """every iteration over a RandomState-hashed std HashMap / HashSet in `crates`:
+    -> [(body, bb, term, method, [(kind, detail)], order_sensitive?)]"""
+    out = []
+    for c in crates:
+        if c not in facts.crates:
+            continue
+        for b in facts.all_bodies(c):
+            for bb, t in b.calls():
+                callee = t.callee
+                if not (("hash::map::HashMap" in callee or "hash::set::HashSet" in callee) and IT.search(callee)):
+                    continue
+                if "std::hash::random::RandomState" not in t.d["cargs"]:
+                    continue
+                norm = []
+                for kind, detail, ub in classify(b, bb):
+                    if kind == "sensitive" and detail.startswith("collect into "):
+                        tgt = detail[len("collect into "):]
+                        if tgt in NORMALISING_TARGETS:
+                            kind, detail = "insensitive", f"collect into {tgt.split('::')[-1]} ({NORMALISING_TARGETS[tgt]})"
+                    norm.append((kind, detail))
+                bad = [(k, d) for k, d in norm if k not in ("insensitive", "sorted-vec")]
+                out.append((b, bb, t, IT.search(callee).group(1), norm, bool(bad)))
+    return out
+
+
 def run_config(chk, facts, cfg):
     crates = [c for c in SCOPE + SUPPORT if c in facts.crates]
     # ---- C07-a ------------------------------------------------------------------------------------
